@@ -523,7 +523,7 @@ package protocol
 //@   requires u != nil && (u.isClient ==> u.block != nil)
 //@   sets ghost(shown) = 0
 //@   check_pre parseSessionSegment, parseDataAckSegment, serverTryDecryptMetadataForNewSession
-//@   assert_call ReplayCache.IsDuplicate: len(arg0) == 16 && baseof(arg0) == baseof(b) && len(b) >= 48
+//@   assert_call ReplayCache.IsDuplicate: len(arg0) == 16 && baseof(arg0) == baseof(b) && offsetof(arg0) == offsetof(b) && len(b) >= 48
 //@   // the receive buffer holds any datagram a peer may legally send: the largest MTU the
 //@   // configuration accepts is 1500 (C02: a truncated datagram is dropped at every retransmission)
 //@   assert_call net.PacketConn.ReadFrom: len(arg0) >= 1500
@@ -636,8 +636,13 @@ package protocol
 //@   preserves ghost(wr), ghost(dsent), StreamUnderlay.send, StreamUnderlay.baseUnderlay.isClient
 //@   requires t != nil && t.conn != nil && typeof(t.conn) != typeid(*bytes.Reader)
 //@   check_pre readSessionSegment, readDataAckSegment, serverInitRecvBlockCipherAndDecryptMetadata
-//@   assert_call ReplayCache.IsDuplicate: len(arg0) == 16 && baseof(arg0) == baseof(encryptedMeta) && len(encryptedMeta) >= 48
+//@   assert_call ReplayCache.IsDuplicate: len(arg0) == 16 && baseof(arg0) == baseof(encryptedMeta) && offsetof(arg0) == offsetof(encryptedMeta) && len(encryptedMeta) >= 48
 //@   sets ghost(shown) = 0
+//@   // a "duplicate" answer of the cache on a connection's first read is final (C06): whatever
+//@   // else is looked up afterwards, the read is treated as a replay of a new session
+//@   sets ghost(dupres) = 0
+//@   ghost_call ReplayCache.IsDuplicate: ghost(dupres) = ite(result0, 1, ghost(dupres))
+//@   assert_at "if t.recv == nil && t.isClient {": [C06] firstRead && ghost(dupres) == 1 ==> isNewSessionReplay
 //@   assert_call StreamUnderlay.serverInitRecvBlockCipherAndDecryptMetadata: [C06 C05] ghost(shown) == 1
 //@   assert_call BlockCipher.Decrypt: [C06 C05] ghost(shown) == 1
 //@   assert_at "return seg, nil": t.recv != nil && (t.isClient || !isNewSessionReplay)
